@@ -60,7 +60,7 @@ func init() {
 			"'never early' is one-sided: the start instant is read before Play/MultiPlay is called, so machine load can only delay sends, never make the check fire",
 			"sysex events in tracks are not constrained (the statement speaks of channel messages and meta events)",
 		},
-		Require: []string{"plays", "sends_observed", "same_tick_runs_ge_13", "cross_track_same_tick", "selections_proper_subset", "maps_without_default", "never_early_checks", "play_single_port"},
+		Require: []string{"plays", "sends_observed", "same_tick_runs_ge_13", "cross_track_same_tick", "selections_proper_subset", "maps_without_default", "never_early_checks", "play_single_port", "replays_with_rerouted_map"},
 		Workers: 16,
 		Run:     runC12,
 	})
@@ -317,6 +317,46 @@ func runC12(c *mon.Ctx) {
 					if seen[string(e.msg)] == 0 {
 						c.Violation("missing-send", fmt.Sprintf("message % X of track %d (tick %d) was never sent; %d of %d expected messages arrived", e.msg, e.track, e.abs, len(seen), len(want)), in, len(want), len(seen))
 						break
+					}
+				}
+			}
+		}
+		// state carried across calls: one reader, played twice, the SAME map object re-routed in place
+		if nt >= 2 {
+			log := &playLog{}
+			pa, pb, pc := &fakeOut{id: 1, log: log, open: true}, &fakeOut{id: 2, log: log, open: true}, &fakeOut{id: 3, log: log, open: true}
+			outs := map[int]drivers.Out{-1: pa, nt - 1: pb}
+			trd := smf.ReadTracksFrom(bytes.NewReader(b))
+			in := map[string]any{"file": mon.Hex(b), "tracks": nt, "scenario": "MultiPlay(m); m[last track] = other port; MultiPlay(m) on the same TracksReader"}
+			if trd.Error() == nil {
+				log.t0 = time.Now()
+				if !c.Guard("panic:Play", in, func() { trd.MultiPlay(outs) }) {
+					first := len(log.recs)
+					outs[nt-1] = pc
+					outs[0] = pb
+					if !c.Guard("panic:Play", in, func() { trd.MultiPlay(outs) }) {
+						c.Count("replays_with_rerouted_map", 1)
+						want := map[string]int{}
+						for _, e := range truth {
+							switch e.track {
+							case nt - 1:
+								want[string(e.msg)] = 3
+							case 0:
+								want[string(e.msg)] = 2
+							default:
+								want[string(e.msg)] = 1
+							}
+						}
+						second := log.recs[first:]
+						if len(second) != len(truth) {
+							c.Violation("replay-count", fmt.Sprintf("second play of the same reader sent %d messages, the file has %d playable ones", len(second), len(truth)), in, len(truth), len(second))
+						}
+						for _, sr := range second {
+							if p, ok := want[string(sr.data)]; !ok || p != sr.port {
+								c.Violation("replay-wrong-port", fmt.Sprintf("second play after re-routing the map in place: message % X went to port %d, mapped port is %d", sr.data, sr.port, p), in, p, sr.port)
+								break
+							}
+						}
 					}
 				}
 			}
